@@ -1951,9 +1951,11 @@ class Compiler:
                 KEYS=keys, DEQUE=Symbol(collections.deque))
             offer += template("__econtext['__slots__'] = KEYS", KEYS=keys)
 
+        # (the macro is looked up first: when that fails, no filler has
+        # been put in place that would outlive this use)
         return (
-            callbacks +
             assignment +
+            callbacks +
             [TokenRef(node.expression.value)] +
             template("__m = __macro.include") +
             offer +
